@@ -744,7 +744,7 @@ class Frame:
             return ("null",)
         if k == "UnaryExprOrTypeTraitExpr":
             return ("unknown", "sizeof")
-        if k in ("ExprWithCleanups", "MaterializeTemporaryExpr", "CXXBindTemporaryExpr"):
+        if k in ("ExprWithCleanups", "MaterializeTemporaryExpr", "CXXBindTemporaryExpr", "CXXStdInitializerListExpr"):
             return self.e(n["c"][0])
         return ("unknown", "expression kind " + str(k))
 
@@ -908,6 +908,13 @@ class Frame:
             return self.inline_or_opaque(n, self.F.functions[n["mg"]], None, args, args_n)
         args = tuple(self.fz(self.e(a)) for a in args_n)
         name = MATH_NAMES.get(fn, fn)
+        if name in ("min", "max") and len(args) == 1 and args[0][0] == "call" and args[0][1] == "initlist" and args[0][2]:
+            # std::min({a, b, c}) -> min(a, min(b, c))
+            el = args[0][2]
+            r = el[-1]
+            for x in reversed(el[:-1]):
+                r = ("call", name, (x, r))
+            return r
         if name == "pow" and len(args) == 2 and args[1][0] == "num" and args[1][1].denominator == 1 and 0 <= args[1][1] <= 8:
             r = NUM1
             for _ in range(int(args[1][1])):
